@@ -21,8 +21,9 @@ ShapesW == { <<D("ms_p2sh", 2, <<1, 2, 3>>, "c"), D("p2pkh", 1, <<1>>, "u")>>,
              <<D("p2sh_p2wpkh", 1, <<2>>, "c"), D("ms_bare", 1, <<3, 2>>, "u")>> }
 \* "deep" configurations: plain key sets, scripts always supplied, one mechanism - but every
 \* subset of keys and of inputs, to the full depth
-DeepPasses == {p \in AllPasses : p.mech = "lookup" /\ p.scr /\ p.reg = {} /\ p.sec = {} /\ p.fresh /\ p.I # {}}
+DeepPasses == {p \in AllPasses : p.mech = "lookup" /\ p.scr /\ p.reg = {} /\ p.sec = {} /\ p.fresh /\ p.ic = "set"}
+NoKcAdds == {}
 \* "wide" configurations: every mechanism, keychain tables, missing scripts - fewer key subsets
-WidePasses == {p \in AllPasses : /\ Canonical(p) /\ p.I \in {Ins, {1}}
+WidePasses == {p \in AllPasses : /\ Canonical(p) /\ p.I \in {Ins, {1}, {}} /\ (p.I = Ins <=> p.ic = "none")
                                   /\ Cardinality(p.K) \in {0, 1, NK} /\ p.reg \in {{}, {1, 2}, {2, 3}, Keys}}
 =============================================================================
